@@ -41,6 +41,16 @@ THEOREMS = [
     'Nb.C18.parcels_mapping_roundtrip',
     'Nb.C18.dispatch_roundtrip',
     'Nb.C18.parcels_add_ok_iff',
+    # wave-3 extension: metadata dicts through the XML text
+    'Nb.C18.meta_xml_roundtrip',
+    'Nb.C18.meta_xml_spec',
+    'Nb.C18.meta_xml_empty_value_kept',
+    'Nb.C18.scalarm_xml_roundtrip',
+    # wave-3 extension: SeriesAxis methods translated from the source each run
+    'Nb.C18.gen_series_eq_model',
+    'Nb.C18.gen_series_getitem_spec',
+    'Nb.C18.gen_series_int_spec',
+    'Nb.C18.gen_series_add_spec',
 ]
 ASSUMPTIONS = [
     'hand-written Lean model of nibabel/cifti2/cifti2_axes.py (Model/C18.lean): SeriesAxis slicing/int '
@@ -61,6 +71,15 @@ ASSUMPTIONS = [
     'working tree (Generated/C18.lean). XML contract (trusted): expat/ElementTree parse∘serialise = id on the '
     'element tree, float(str(v)) = v for finite floats (colours are opaque binary64 bit patterns in the model), '
     'names/metadata without outer whitespace unchanged',
+    'wave-3 extension: (a) metadata dicts with EXPLICIT entries (texts = opaque stripped core + whitespace padding; '
+    'trusted contract: expat returns the character data of Name / Value as written, str.strip() removes exactly the '
+    'padding) through CaretMetaData._to_xml_element / the parser MD handlers / from_index_mapping are modelled '
+    '(mdToXml, mdParse, scalarMXrt) and model-compared on streams scm-xrt and fm-xrt, INCLUDING padded texts (the '
+    'model predicts the stripping of the open finding roundtrip:meta-whitespace); (b) SeriesAxis.get_element / '
+    '__getitem__ / __add__ are TRANSLATED from the working tree on every run by harness/py2lean_c18.py (trusted: the '
+    'syntactic translator harness/py2lean.py + py2lean_c18.py, Basic/PyVal.lean as semantics of the Python fragment; '
+    'Python bools as indices are outside the fragment) into Generated/C18Funcs.lean, proved equal to the model for '
+    'all inputs (Lemmas/C18_Gen.lean) and executed in the driver against the real methods (stream series-gen)',
     'PARTIAL: the XML text layer itself (Cifti2* _to_xml_element, Cifti2Parser/expat, float repr, the 10-decimal '
     'affine text compared with np.allclose) and the NIfTI-2 container are NOT modelled; to_header has a model and a '
     'correspondence stream but no theorem; BrainModelAxis `+` success is not characterised (parcels: '
@@ -77,6 +96,14 @@ RULE = ('streams: series (int start/step/size/unit x int|slice|index-array|mask 
         'tuples (oracle only) incl. rich label tables, series start/step needing 17 digits, oblique affines, '
         '32492-vertex surfaces and axes with a HISTORY (1-3 indexing / concatenation steps before serialising: '
         'parcels with unused surfaces, interleaved brain models). '
+        'WAVE 3: per-map metadata of scalar / label axes from a table of 98 dicts (ids; EMPTY values, the empty key, '
+        'XML-special / CDATA / entity look-alike / non-ASCII / 5000-character texts, inner whitespace, the texts None / '
+        '0 / nan, keys equal up to case, 1-5 entries; every element its own dict, all the same dict, dicts that differ '
+        'only in an empty-valued entry), outer-whitespace dicts only in the indexing / add streams; file-level '
+        'metadata (fmeta, and fmeta_a of the donor image) on xml / file / file2 / *-near; eq / near perturbations '
+        'meta-empty / meta-blank / meta-case; scm-xrt and fm-xrt (explicit dicts, 15% with padded texts and keys '
+        'colliding once stripped, model-compared); series-gen (every series slice / int / add case again through the '
+        'TRANSLATED methods). '
         'A case is non-trivial unless it is a full slice; distinct by (axis description, operation).')
 
 def regen():
@@ -124,7 +151,72 @@ def regen():
               'def seriesExponent : Nat := %d' % exponent, '', 'end Nb.Gen.C18', '']
     path = os.path.join(common.LEAN, 'NibabelModel', 'Generated', 'C18.lean')
     common.write_if_changed(path, '\n'.join(lines))
-    return ['Generated.C18.toMappingType', 'Generated.C18.returnType', 'Generated.C18.seriesExponent']
+    return ['Generated.C18.toMappingType', 'Generated.C18.returnType', 'Generated.C18.seriesExponent'] + regen_funcs()
+
+
+GEN_METHODS = [('get_element', 'getElement'), ('__getitem__', 'getitem'), ('__add__', 'add')]
+SERIES_FIELDS = ['start', 'step', 'size', 'unit']
+
+
+def regen_funcs():
+    """Generated/C18Funcs.lean: `SeriesAxis.get_element / __getitem__ / __add__` TRANSLATED from the working tree by
+    harness/py2lean_c18.py (one Lean statement per Python statement, over Basic/PyVal), plus wrappers with a fixed
+    argument order (the translated parameter order is the order of first use in the source).  Lemmas/C18_Gen.lean
+    proves the wrappers equal to the hand-written model for all inputs; the `gen` stream runs them in the driver
+    against the real methods."""
+    import importlib
+    import os
+    import common
+    import py2lean_c18
+    from nibabel.cifti2 import cifti2_axes
+    importlib.reload(py2lean_c18)
+    hdr = ('/-! GENERATED by harness/props/c18.py regen() with harness/py2lean_c18.py from the working tree of nibabel\n'
+           '    (nibabel/cifti2/cifti2_axes.py, class SeriesAxis). Do not edit: rewritten on every run of `./check C18`.\n'
+           '    Core Lean only. -/')
+    text, sigs = py2lean_c18.translate_methods(cifti2_axes.SeriesAxis, GEN_METHODS, 'Nb.Gen.C18F', hdr)
+
+    def arg(pname, prefix_map):
+        for pre, tag in prefix_map.items():
+            if pname.startswith(pre) and pname[len(pre):] in SERIES_FIELDS:
+                return tag + pname[len(pre):]
+        return None
+
+    w = []
+    fields = ' '.join(SERIES_FIELDS)
+    # get_element
+    call = []
+    for pn, ar in sigs['getElement']:
+        a = arg(pn, {'self_': ''})
+        if a is None and pn == 'index' and ar is None:
+            a = 'index'
+        if a is None:
+            raise RuntimeError('C18 regen: get_element uses %r, outside the modelled state of a SeriesAxis' % pn)
+        call.append(a)
+    w += ['/-- `SeriesAxis(start, step, size, unit).get_element(index)` -/',
+          'def getElementW (%s index : V) : M V := getElement %s' % (fields, ' '.join(call)), '']
+    call = []
+    for pn, ar in sigs['getitem']:
+        a = arg(pn, {'self_': ''})
+        if a is None and pn == 'item' and ar is None:
+            a = 'item'
+        if a is None and pn == 'self_get_element' and ar == 1:
+            a = '(getElementW %s)' % fields
+        if a is None:
+            raise RuntimeError('C18 regen: __getitem__ uses %r, outside the modelled state of a SeriesAxis' % pn)
+        call.append(a)
+    w += ['/-- `SeriesAxis(start, step, size, unit)[item]`; the result axis is the list of its constructor arguments -/',
+          'def getitemW (%s item : V) : M V := getitem %s' % (fields, ' '.join(call)), '']
+    call = []
+    for pn, ar in sigs['add']:
+        a = arg(pn, {'self_': '', 'other_': 'o'})
+        if a is None or ar is not None:
+            raise RuntimeError('C18 regen: __add__ uses %r, outside the modelled state of two SeriesAxis' % pn)
+        call.append(a)
+    w += ['/-- `SeriesAxis(start, step, size, unit) + SeriesAxis(ostart, ostep, osize, ounit)` -/',
+          'def addW (%s %s : V) : M V := add %s' % (fields, ' '.join('o' + f for f in SERIES_FIELDS), ' '.join(call)), '']
+    text = text.replace('end Nb.Gen.C18F', '\n'.join(w) + '\nend Nb.Gen.C18F')
+    common.write_if_changed(os.path.join(common.LEAN, 'NibabelModel', 'Generated', 'C18Funcs.lean'), text)
+    return ['Generated.C18Funcs.' + ln for _, ln in GEN_METHODS]
 
 
 PENDING_FINDINGS = [
@@ -145,6 +237,12 @@ PENDING_FINDINGS = [
              'LabelTable element is left out) but header.get_axis raises AttributeError ("NoneType has no attribute '
              'items") in LabelAxis.from_index_mapping; the CIFTI-2 LabelTable allows 0..N Label children',
      'input': {'op': 'xml', 'stream': 'xml', 'axes': [{'t': 'label', 'name': [0], 'tables': [[]], 'meta': [0]}]}},
+    {'property': 'C18', 'signature': 'roundtrip:meta-whitespace', 'status': 'open',
+     'what': 'leading / trailing whitespace of a metadata key or value (per-map metadata of a ScalarAxis / LabelAxis, '
+             'and the file-level MetaData) is stripped by the CIFTI-2 XML parser (flush_chardata: data.strip()): '
+             'ScalarAxis(["m"], [{"a": " x"}]) comes back with {"a": "x"}, a whitespace-only value comes back as ""; '
+             'the EMPTY value and inner whitespace are preserved',
+     'input': {'op': 'xml', 'stream': 'xml', 'axes': [{'t': 'raw', 'd': {'kind': 'sc', 'name': [0], 'meta': [91]}}]}},
 ]
 
 # ------------------------------------------------------------------ value tables (id -> value)
@@ -159,12 +257,111 @@ def NAME(i):
     return ['n0', 'n1', 'a<b&"c\'>', 'ünï 中', 'n4', ' lead', 'n6', ''][i % NID] + ('' if i < NID else str(i))
 
 
-def META(i):
+def _meta_base(i):
     if i == 0:
         return {}
     if i == 1:
         return {'k<&>': 'v"\'é'}
     return {'k%d' % j: 'v%d_%d' % (i, j) for j in range(i % 3 + 1)} | {'id': str(i)}
+
+
+# metadata atoms (wave-3 widening).  SAFE = what the CIFTI-2 XML text can carry unchanged (pinned on the unchanged
+# tree): the EMPTY value, XML-special characters, `]]>`, CDATA / entity look-alikes, non-ASCII, inner whitespace
+# (spaces, tab, newline), very long text, the texts 'None' / '0' / 'nan', the empty key, keys equal up to case.
+# UNSAFE = leading / trailing whitespace (the parser strips Name and Value text: finding roundtrip:meta-whitespace).
+# Not generated at all: '\r' (XML line-end normalisation), control characters (not XML 1.0), non-str values.
+META_KEYS_SAFE = ['Description', 'Units', 'Key', 'key', 'KEY', '', 'k<&>', 'ünï', 'a b', 'k\nk', ']]>', 'K' * 300,
+                  'None', 'Name', 'Value', 'MD']
+META_VALS_SAFE = ['', 'mm', 'v"\'é', '&<>"\'', ']]>', '<![CDATA[x]]>', 'None', 'ünï 中 \U0001F600', 'x' * 5000,
+                  'x\ny', 'tab\there', 'x  y', '&amp;', '&#10;', '0', 'nan', '<MD><Name>a</Name><Value>b</Value></MD>',
+                  'Ã©', '-', '1/mm']
+META_KEYS_UNSAFE = [' k ', 'k ', '\tk']
+META_VALS_UNSAFE = [' ', '  \t\n ', ' x', 'x ', '\n', 'x\n']
+
+
+def _meta_table():
+    import random
+    r = random.Random(1808)
+    t = []
+    for j, v in enumerate(META_VALS_SAFE):                  # every value atom, alone and next to an ordinary entry
+        t.append({META_KEYS_SAFE[j % 2]: v})
+        t.append({'id': str(j), META_KEYS_SAFE[(j + 1) % len(META_KEYS_SAFE)]: v})
+    for j, k_ in enumerate(META_KEYS_SAFE):                 # every key atom
+        t.append({k_: 'val%d' % j})
+    t += [{'Key': '1', 'key': '2', 'KEY': '3'}, {'Key': '', 'key': '', 'KEY': 'x'}, {'Key': 'x', 'key': 'x'},
+          {'Description': '', 'Units': ''}, {'Description': '', 'Units': 'mm'}, {'Units': '', 'Description': 'mm'},
+          {'Description': 'None', 'Units': ''}, {'': ''}, {'': '', 'Description': ''},
+          {'KEY': 'x'}, {'Description': 'mm'}, {'Description': 'None'}]
+    for _ in range(14):                                     # random compositions, 1-5 entries
+        ks = r.sample(META_KEYS_SAFE, r.randrange(1, 6))
+        t.append({k_: r.choice(META_VALS_SAFE) if r.random() < 0.7 else '' for k_ in ks})
+    seen, u = set(), []
+    for m in t:                                             # equal dicts (in any key order) only once
+        c = tuple(sorted(m.items()))
+        if c not in seen:
+            seen.add(c)
+            u.append(m)
+    t = u
+    n_safe = len(t)
+    for v in META_VALS_UNSAFE:
+        t.append({'a': v})
+    for k_ in META_KEYS_UNSAFE:
+        t.append({k_: 'v', 'Units': ''})
+    return t, n_safe
+
+
+_META_TABLE, _N_META_SAFE = _meta_table()
+NMETA = NID + len(_META_TABLE)
+
+
+def META(i):
+    """metadata dict of id `i`: ids 0..7 are the original small dicts, 8..NMETA-1 the rich table above"""
+    if i < NID:
+        return _meta_base(i)
+    return dict(_META_TABLE[i - NID])
+
+
+# explicit metadata texts for the model-compared streams scm-xrt / fm-xrt: text = WS[padL] + CORE[core] + WS[padR]
+# (Model/C18.lean `Txt`); every CORE is strip-fixed (CORE[0] is the empty text), every WS is whitespace for str.strip
+TXT_CORE = list(dict.fromkeys([''] + META_KEYS_SAFE + META_VALS_SAFE + ['k', 'v', 'a', 'id', 'Comment']))
+TXT_WS = ['', ' ', '\n', ' \t ', '\u00a0', '\u3000\n']
+assert all(c == c.strip() for c in TXT_CORE) and all(w.strip() == '' for w in TXT_WS) and TXT_CORE[0] == ''
+_R_CORE = {c: i for i, c in enumerate(TXT_CORE)}
+
+
+def TEXT(t):
+    c, l, r = t
+    return TXT_WS[l] + TXT_CORE[c] + TXT_WS[r]
+
+
+def txt_id(x):
+    """`core.padL.padR` of a text that came out of nibabel (normal form: whitespace-only text = core 0, padL only)"""
+    if not isinstance(x, str):
+        return '?' + repr(x)[:30]
+    core = x.strip()
+    if core not in _R_CORE:
+        return '?' + repr(x)[:30]
+    if core == '':
+        lead, trail = x, ''
+    else:
+        i = len(x) - len(x.lstrip())
+        lead, trail = x[:i], x[i + len(core):]
+    if lead not in TXT_WS or trail not in TXT_WS:
+        return '?' + repr(x)[:30]
+    return '%d.%d.%d' % (_R_CORE[core], TXT_WS.index(lead), TXT_WS.index(trail))
+
+
+def MDICT(entries):
+    return {TEXT(k_): TEXT(v) for k_, v in entries}
+
+
+def fmt_mdict(entries):
+    return ';'.join('%d.%d.%d=%d.%d.%d' % (tuple(k_) + tuple(v)) for k_, v in entries) or '_'
+
+
+def show_mdict(m):
+    # entries sorted as strings (Python compares dicts without regard to entry order)
+    return '[' + ','.join(sorted(txt_id(k_) + '=' + txt_id(v) for k_, v in dict(m).items())) + ']'
 
 
 def LABEL(i):
@@ -243,7 +440,11 @@ def AFFINE(i):
 
 
 def _canon_meta(m):
-    return tuple(sorted((str(k), str(v)) for k, v in dict(m).items()))
+    """EXACT content of a metadata dict: keys and values must be `str` (anything else is marked with its repr, so that
+    the value None and the text 'None' are different)"""
+    def tx(x):
+        return str(x) if isinstance(x, str) else '!' + repr(x)
+    return tuple(sorted((tx(k), tx(v)) for k, v in dict(m).items()))
 
 
 def _canon_label(d):
@@ -259,9 +460,9 @@ def _canon_vert(d):
     return tuple(sorted((str(k), tuple(map(int, np.asarray(v).ravel()))) for k, v in d.items()))
 
 
-def _rev(f, canon):
+def _rev(f, canon, n=NID):
     t = {}
-    for i in range(NID):
+    for i in range(n):
         k = canon(f(i))
         assert k not in t, (f.__name__, i, t[k])
         t[k] = i
@@ -269,7 +470,7 @@ def _rev(f, canon):
 
 
 _R_NAME = _rev(NAME, str)
-_R_META = _rev(META, _canon_meta)
+_R_META = _rev(META, _canon_meta, NMETA)
 _R_LABEL = _rev(LABEL, _canon_label)
 _R_VOX = _rev(VOXSET, _canon_vox)
 _R_VERT = _rev(VERTDICT, _canon_vert)
@@ -281,6 +482,21 @@ VOX_IDS = VERT_IDS = list(range(NID))
 # names that the XML layer does not preserve (see PENDING_FINDINGS): kept out of the round-trip streams
 XML_UNSAFE_NAMES = [i for i in range(NID) if NAME(i) != NAME(i).strip() or NAME(i) == '']
 XML_SAFE_NAMES = [i for i in range(NID) if i not in XML_UNSAFE_NAMES]
+
+
+def _meta_xml_safe(m):
+    return all(isinstance(x, str) and x == x.strip() for kv in m.items() for x in kv)
+
+
+ALL_METAS = list(range(NMETA))
+XML_SAFE_METAS = [i for i in ALL_METAS if _meta_xml_safe(META(i))]
+XML_UNSAFE_METAS = [i for i in ALL_METAS if i not in XML_SAFE_METAS]
+# dicts that differ only in whether an entry with an EMPTY value is present / which of its values is empty
+_WITH_EMPTY = [META(i) for i in XML_SAFE_METAS if '' in META(i).values()]
+_SANS_EMPTY = [{k_: v for k_, v in m.items() if v != ''} for m in _WITH_EMPTY]
+META_EMPTYISH = [i for i in XML_SAFE_METAS if META(i) in _WITH_EMPTY or META(i) in _SANS_EMPTY]
+assert len(XML_SAFE_METAS) == NID + _N_META_SAFE, (len(XML_SAFE_METAS), _N_META_SAFE)
+assert META(91) == {'a': ' x'}        # the id used by PENDING_FINDINGS roundtrip:meta-whitespace (ids must stay stable)
 
 
 def rid(table, key):
@@ -302,6 +518,8 @@ def build_axis(d):
         return ax.SeriesAxis(d['start'], d['step'], d['size'], UNITS[d['unit']])
     if k == 'sc':
         return ax.ScalarAxis([NAME(i) for i in d['name']], [META(i) for i in d['meta']])
+    if k == 'scm':
+        return ax.ScalarAxis([NAME(i) for i in d['name']], [MDICT(m) for m in d['metas']])
     if k == 'la':
         return ax.LabelAxis([NAME(i) for i in d['name']], [LABEL(i) for i in d['label']],
                             [META(i) for i in d['meta']])
@@ -463,7 +681,7 @@ def has_line(d):
     """float series and round-trip streams are oracle-only"""
     if d.get('kind') == 'ser' and not all(isinstance(d[k], int) for k in ('start', 'step')):
         return False
-    return d.get('op') in ('idx', 'add', 'runs', 'rt', 'name', 'map', 'xrt', 'hdr')   # xml/file/file2/eq are oracle-only
+    return d.get('op') in ('idx', 'add', 'runs', 'rt', 'name', 'map', 'xrt', 'hdr', 'fmx')   # xml/file/file2/eq are oracle-only
 
 
 def mk_case(d, stream):
@@ -475,6 +693,10 @@ def mk_case(d, stream):
         line = 'C18 lar %s %s %s xrt' % (_l(d['name']), _l(d['meta']), fmt_tables(d['tables']))
     elif op == 'xrt' and d['kind'] == 'pa':
         line = 'C18 ' + fmt_par(d) + ' xrt'
+    elif op == 'xrt' and d['kind'] == 'scm':
+        line = 'C18 scm %s %s xrt' % (_l(d['name']), '|'.join(fmt_mdict(m) for m in d['metas']) or '-')
+    elif op == 'fmx':
+        line = 'C18 fm %s xrt' % fmt_mdict(d['meta'])
     elif has_line(d):
         line = 'C18 ' + fmt_axis(d)
         if op == 'idx':
@@ -488,6 +710,8 @@ def mk_case(d, stream):
             line += ' name %d' % d['nm']
         else:
             line += ' ' + op
+        if line is not None and d.get('gen'):
+            line = 'C18 gen ' + line[4:]      # the same call on the methods TRANSLATED from the source
     trivial = op == 'idx' and d['idx']['t'] == 's' and d['idx']['v'] == [None, None, None]
     key = None if trivial else json.dumps(d, sort_keys=True, default=str)
     return Case(line, d, key, stream)
@@ -515,6 +739,15 @@ def impl(case):
         return 'eq %s %s' % (bool(a == b), bool(b == a))
     if op == 'hdr':
         return impl_hdr(case)
+    if op == 'fmx':        # file-level metadata (MetaData child of Matrix) through the XML text
+        from nibabel.cifti2 import cifti2
+        from nibabel.cifti2.parse_cifti2 import Cifti2Parser
+        hdr = cifti2.Cifti2Header.from_axes([A().ScalarAxis([NAME(0)], [{}])])
+        hdr.matrix.metadata = cifti2.Cifti2MetaData(MDICT(d['meta']))
+        p = Cifti2Parser()
+        p.parse(string=hdr.to_xml())
+        ex['res'] = {} if p.header.matrix.metadata is None else dict(p.header.matrix.metadata)
+        return show_mdict(ex['res'])
     kind = d['kind']
     try:
         axis = build_axis(d)
@@ -562,6 +795,9 @@ def impl(case):
                 return canon_labelr(r)
             if kind == 'pa':
                 return canon_parcelsr(r)
+            if kind == 'scm':
+                return 'ax %d %s' % (len(r), ';'.join('%s:%s' % (rid(_R_NAME, str(nm)), show_mdict(m))
+                                                      for nm, m in zip(r.name, r.meta)) or '-')
             return canon_axis(kind, r)
         if op == 'rt':
             m = axis.to_mapping(0)
@@ -732,6 +968,16 @@ def perturb_axis(a, p):
                 meta[j]['extra%d' % k] = 'y'
             elif what == 'meta-drop' and meta[j]:
                 meta[j].pop(sorted(meta[j])[k % len(meta[j])])
+            elif what == 'meta-empty':              # one more entry whose value is the EMPTY string
+                meta[j][['Comment', 'Description', 'extra'][k % 3] + ('' if k < 3 else '2')] = ''
+            elif what == 'meta-blank' and meta[j]:  # one value becomes '' (or stops being '')
+                key = sorted(meta[j])[k % len(meta[j])]
+                meta[j][key] = '' if meta[j][key] != '' else 'x'
+            elif what == 'meta-case' and meta[j]:   # one key changes case
+                key = sorted(meta[j])[k % len(meta[j])]
+                k2 = key.swapcase() if key.swapcase() != key else key + 'X'
+                if k2 not in meta[j]:
+                    meta[j][k2] = meta[j].pop(key)
             elif what == 'label' and kind == 'la':
                 label[j][900 + k] = ('extra', (0.5, 0.25, 0.0, 1.0))
             elif what == 'label-colour' and kind == 'la' and label[j]:
@@ -816,8 +1062,9 @@ def perturb_axis(a, p):
 
 PERTURBATIONS = {
     'ser': ['start', 'step', 'size', 'unit', 'none'],
-    'sc': ['name', 'meta', 'meta-drop', 'none'],
-    'la': ['name', 'meta', 'meta-drop', 'label', 'label-colour', 'label-colour-ulp', 'label-drop', 'none'],
+    'sc': ['name', 'meta', 'meta-drop', 'meta-empty', 'meta-blank', 'meta-case', 'none'],
+    'la': ['name', 'meta', 'meta-drop', 'meta-empty', 'meta-blank', 'meta-case', 'label', 'label-colour',
+           'label-colour-ulp', 'label-drop', 'none'],
     'pa': ['name', 'add-struct', 'add-struct', 'drop-struct', 'vertex', 'voxel', 'voxel-drop', 'nvertices', 'affine',
            'none'],
     'bm': ['index', 'nvertices', 'affine', 'struct', 'drop-last', 'none'],
@@ -869,6 +1116,11 @@ def impl_roundtrip(case):
     axes = [build_rich_axis(s) for s in d['axes']]
     ex['axes'] = axes
     hdr = cifti2.Cifti2Header.from_axes(axes)
+    if d.get('fmeta') is not None:       # file-level metadata (the MetaData child of Matrix)
+        hdr.matrix.metadata = cifti2.Cifti2MetaData(META(d['fmeta']))
+
+    def file_meta(h):
+        return None if h.matrix.metadata is None else dict(h.matrix.metadata)
     if d['op'] == 'xml':
         xml = hdr.to_xml()
         ex['xml_len'] = len(xml)
@@ -880,6 +1132,7 @@ def impl_roundtrip(case):
             hdr2 = p.header
         ex['back'] = [hdr2.get_axis(i) for i in range(len(axes))]
         ex['nmaps'] = len(list(hdr2.matrix))
+        ex['fmeta_back'] = file_meta(hdr2)
         return 'xml %d maps=%d' % (len(axes), ex['nmaps'])
     shape = tuple(len(a) for a in axes)
     rs = np.random.RandomState(d['dseed'])
@@ -890,7 +1143,10 @@ def impl_roundtrip(case):
         # an earlier image A (other axes, other data) whose NIfTI header is reused for the new image
         axes_a = [build_rich_axis(s) for s in d['axes_a']]
         data_a = rs.randint(-1000, 1000, size=tuple(len(a) for a in axes_a)).astype(np.float32) / 2
-        img_a = cifti2.Cifti2Image(data_a, cifti2.Cifti2Header.from_axes(axes_a))
+        hdr_a = cifti2.Cifti2Header.from_axes(axes_a)
+        if d.get('fmeta_a') is not None:
+            hdr_a.matrix.metadata = cifti2.Cifti2MetaData(META(d['fmeta_a']))
+        img_a = cifti2.Cifti2Image(data_a, hdr_a)
         for _ in range(d.get('saves', 1)):
             bytes_a = img_a.to_bytes()
         if d['mode'] == 'loaded':
@@ -903,6 +1159,7 @@ def impl_roundtrip(case):
     img2 = cifti2.Cifti2Image.from_bytes(b)
     ex['back'] = [img2.header.get_axis(i) for i in range(len(axes))]
     ex['data_back'] = np.asanyarray(img2.dataobj)
+    ex['fmeta_back'] = file_meta(img2.header)
     ex['nifti_dim'] = [int(x) for x in img2.nifti_header['dim']]
     ex['ecodes'] = [e.get_code() for e in img2.nifti_header.extensions]
     return '%s %s' % (d['op'], shape)
@@ -962,6 +1219,13 @@ def oracle(case, out):
             return (f'{axis_kind(ex["a"])}: (a == b, b == a) = {out[3:]} but the element descriptions are '
                     f'{"equal" if same else "different"} ({d["b"].get("p") or d["a"].get("p")})')
         return None
+    if op == 'fmx':
+        if 'res' not in ex:
+            return 'file-level metadata round trip raised: ' + out
+        want = MDICT(d['meta'])
+        if ex['res'] != want or _canon_meta(ex['res']) != _canon_meta(want):
+            return 'fm: file-level metadata changed by the XML round trip: ' + _meta_diff(want, ex['res'])
+        return None
     if op == 'hdr':
         if 'hdr' not in ex:
             return 'to_header raised: ' + out
@@ -990,6 +1254,15 @@ def oracle(case, out):
         res = ex['res']
         if type(res) is not type(axis) or len(res) != len(axis):
             return f'{kind}: {op} round trip changed the type or length of the axis'
+        if kind == 'scm':
+            for j, (m0, m1) in enumerate(zip(axis.meta, res.meta)):
+                if m0 != m1 or _canon_meta(m0) != _canon_meta(m1):
+                    return f'scm: metadata of map {j} changed by the XML round trip: ' + _meta_diff(m0, m1)
+            if [str(x) for x in axis.name] != [str(x) for x in res.name]:
+                return 'scm: names changed by the XML round trip'
+            if not (res == axis) or not (axis == res):
+                return 'scm: axis after the xrt round trip != original (__eq__)'
+            return None
         if describe(res, False) != describe(axis, False):
             return f'{kind}: {op} round trip changed the axis' + _first_diff(axis, res)
         if not (res == axis) or not (axis == res):
@@ -1152,6 +1425,12 @@ def oracle_roundtrip(case, out):
             return f'axis {i} ({axis_kind(a)}): affine changed by the {d["op"]} round trip beyond np.allclose'
         if not (b == a) or not (a == b):
             return f'axis {i} ({axis_kind(a)}): header.get_axis(i) != axes[i] after the {d["op"]} round trip'
+    # file-level metadata: exactly the entries that were set (no MetaData element = no entries)
+    want = _canon_meta({} if d.get('fmeta') is None else META(d['fmeta']))
+    got = _canon_meta(ex.get('fmeta_back') or {})
+    if got != want:
+        diff = sorted(set(want) ^ set(got))[:3]
+        return f'file-level metadata changed by the {d["op"]} round trip: entries only on one side {_short(diff)}'
     if d['op'] in ('file', 'file2'):
         if ex['data_back'].shape != ex['data'].shape or not np.array_equal(ex['data_back'], ex['data']):
             return 'data matrix changed by the file round trip'
@@ -1162,6 +1441,17 @@ def oracle_roundtrip(case, out):
         if ex['ecodes'].count(32) != 1:
             return f'{ex["ecodes"].count(32)} extensions with code 32 in the saved file (want exactly 1)'
     return None
+
+
+def _meta_diff(want, got):
+    w, g = _canon_meta(want), _canon_meta(got)
+    return 'entries lost %s, entries that appeared %s' % (_short(sorted(set(w) - set(g))[:3]),
+                                                          _short(sorted(set(g) - set(w))[:3]))
+
+
+def _short(x):
+    r = repr(x)
+    return r if len(r) < 200 else r[:200] + '...'
 
 
 def _first_diff(a, b):
@@ -1203,9 +1493,26 @@ def signature(case, what):
                 empty_tables.extend(tb for tb in sp['tables'] if not tb)
             elif sp['t'] in ('perturb', 'hist'):
                 tables(sp['base'])
+        metas = []
+
+        def collect_meta(sp):
+            if sp['t'] == 'raw' and 'meta' in sp['d']:
+                metas.extend(sp['d']['meta'])
+            elif sp['t'] == 'label':
+                metas.extend(sp['meta'])
+            elif sp['t'] in ('perturb', 'hist'):
+                collect_meta(sp['base'])
         for sp in d['axes']:
             collect(sp)
             tables(sp)
+            collect_meta(sp)
+        if d.get('fmeta') is not None:
+            metas.append(d['fmeta'])
+        if ('description changed' in what or '!= axes[i]' in what or 'file-level metadata changed' in what) and \
+                any(i in XML_UNSAFE_METAS for i in metas) and _only_meta_stripped(case):
+            return 'roundtrip:meta-whitespace'
+        if 'file-level metadata changed' in what:
+            return 'roundtrip:file-metadata'
         if 'round trip raised: ERR:AttributeError' in what and empty_tables:
             return 'roundtrip:label-table-empty'
         if 'description changed' in what or '!= axes[i]' in what:
@@ -1215,6 +1522,17 @@ def signature(case, what):
                 return 'roundtrip:name-whitespace'
         return 'roundtrip:' + op
     kind = d.get('kind')
+    if op == 'fmx' or (op == 'xrt' and kind == 'scm'):
+        # the open finding only if str.strip() on keys and values explains EVERYTHING that changed
+        ex = getattr(case, 'extra', None) or {}
+        dicts = [d['meta']] if op == 'fmx' else d['metas']
+        padded = any(t[1] or t[2] for m in dicts for e in m for t in e)
+        if padded and 'res' in ex and 'metadata' in what and 'changed by the XML round trip' in what:
+            want = [{k_.strip(): v.strip() for k_, v in MDICT(m).items()} for m in dicts]
+            got = [ex['res']] if op == 'fmx' else [dict(m) for m in ex['res'].meta]
+            if len(got) == len(want) and all(_canon_meta(a) == _canon_meta(b) for a, b in zip(want, got)):
+                return 'roundtrip:meta-whitespace'
+        return 'fm:xrt' if op == 'fmx' else 'scm:xrt'
     if op == 'idx':
         if kind == 'bm' and 'raised ERR:ValueError' in what and 'selects 0 element' in what:
             return 'bm:empty-selection'
@@ -1227,9 +1545,56 @@ def signature(case, what):
     return f'{kind}:{op}'
 
 
+def _only_meta_stripped(case):
+    """True iff everything that the round trip changed is explained by str.strip() applied to metadata keys and
+    values (the open finding roundtrip:meta-whitespace): names, label tables, parcels, brain models, series, the
+    NUMBER of metadata entries and every entry without outer whitespace are unchanged"""
+    ex = getattr(case, 'extra', None) or {}
+    if 'back' not in ex:
+        return False
+
+    def strip_meta(m):
+        return _canon_meta({k.strip(): v.strip() for k, v in dict(m).items()}) if all(
+            isinstance(x, str) for kv in dict(m).items() for x in kv) else None
+
+    def stripped(axis):
+        k = axis_kind(axis)
+        des = list(describe(axis, False))
+        if k in ('sc', 'la'):
+            for i in range(len(axis)):
+                e = list(des[2 + i])
+                raw = dict(axis.meta[i])
+                sm = strip_meta(raw)
+                if sm is None or len(sm) != len(raw):
+                    return None
+                e[-1] = sm
+                des[2 + i] = tuple(e)
+        return tuple(des)
+    for a, b in zip(ex['axes'], ex['back']):
+        if type(a) is not type(b) or stripped(a) is None or stripped(a) != describe(b, False):
+            return False
+    fm = {} if case.data.get('fmeta') is None else META(case.data['fmeta'])
+    return strip_meta(fm) == _canon_meta(ex.get('fmeta_back') or {})
+
+
 def shrink_candidates(case):
     d = case.data
     op = d.get('op')
+    if op == 'fmx':
+        for j in range(len(d['meta'])):
+            yield mk_case(dict(d, meta=d['meta'][:j] + d['meta'][j + 1:]), case.stream)
+        return
+    if op == 'xrt' and d.get('kind') == 'scm':
+        n = len(d['name'])
+        for j in range(n - 1, -1, -1):
+            if n > 1:
+                yield mk_case(dict(d, name=d['name'][:j] + d['name'][j + 1:], metas=d['metas'][:j] + d['metas'][j + 1:]),
+                              case.stream)
+        for j in range(n):
+            for i in range(len(d['metas'][j])):
+                m2 = d['metas'][j][:i] + d['metas'][j][i + 1:]
+                yield mk_case(dict(d, metas=d['metas'][:j] + [m2] + d['metas'][j + 1:]), case.stream)
+        return
     if op in ('eq', 'map', 'xrt'):
         return
     if op == 'hdr':
@@ -1303,16 +1668,75 @@ def rand_ids(rng, n, pool):
     return [rng.choice(pool) for _ in range(n)]
 
 
+def rand_metas(rng, n, xml_safe=False):
+    """per-element metadata ids: no metadata anywhere / the small original dicts / the rich table (empty values,
+    XML-special text, keys equal up to case, ...; see META_VALS_SAFE), every element its OWN dict; sometimes all
+    elements the same dict or dicts that differ in one entry only"""
+    pool = XML_SAFE_METAS if xml_safe else ALL_METAS
+    r = rng.random()
+    if r < 0.12:
+        return [0] * n
+    if r < 0.3:
+        return rand_ids(rng, n, list(range(NID)))
+    if r < 0.4:
+        return [rng.choice(pool)] * n
+    if r < 0.5:
+        return rand_ids(rng, n, META_EMPTYISH)
+    return rand_ids(rng, n, pool)
+
+
+def rand_txt(rng, pads, value=False):
+    c = rng.randrange(len(TXT_CORE))
+    if value and rng.random() < 0.3:
+        c = 0                                     # the EMPTY value
+    l = r = 0
+    if pads and rng.random() < 0.4:
+        l, r = rng.choice([(1, 0), (0, 1), (2, 2), (3, 0), (0, 4), (5, 1)])
+    if c == 0:
+        r = 0                                     # normal form of whitespace-only text
+    return [c, l, r]
+
+
+def rand_mdict(rng, pads=False):
+    """explicit metadata dict as [[key, value], ...] of texts [core, padL, padR]; distinct keys (as TEXTS); with
+    `pads`, keys may collide once stripped ('k' and ' k')"""
+    n = rng.choice([0, 1, 1, 2, 2, 3, 5])
+    out, seen = [], set()
+    for _ in range(n):
+        k_ = rand_txt(rng, pads)
+        if pads and out and rng.random() < 0.2:
+            k_ = [rng.choice(out)[0][0]] + rng.choice([[1, 0], [0, 2], [0, 0]])
+            if k_[0] == 0:
+                k_[2] = 0
+        if TEXT(k_) in seen:
+            continue
+        seen.add(TEXT(k_))
+        out.append([k_, rand_txt(rng, pads, value=True)])
+    return out
+
+
+def rand_fmeta(rng):
+    """file-level metadata id (None = the header carries no MetaData element)"""
+    r = rng.random()
+    if r < 0.4:
+        return None
+    if r < 0.6:
+        return rng.choice(META_EMPTYISH)
+    return rng.choice(XML_SAFE_METAS)
+
+
 def rand_listaxis(rng, kind, n=None, names=None):
+    """`names` given = the axis is meant for an XML round trip: names AND metadata are drawn from the XML-safe pools"""
     if n is None:
         n = rng.choice([0, 1, 2, 3, 4, 5, 6, 8])
     ids = list(range(NID))
+    xml_safe = names is not None
     names = names or ids
     if kind == 'sc':
-        return {'kind': 'sc', 'name': rand_ids(rng, n, names), 'meta': rand_ids(rng, n, ids)}
+        return {'kind': 'sc', 'name': rand_ids(rng, n, names), 'meta': rand_metas(rng, n, xml_safe)}
     if kind == 'la':
         return {'kind': 'la', 'name': rand_ids(rng, n, names), 'label': rand_ids(rng, n, ids),
-                'meta': rand_ids(rng, n, ids)}
+                'meta': rand_metas(rng, n, xml_safe)}
     if kind == 'pa':
         has_vol = rng.random() < 0.7
         nv = [[0, rng.choice([7, 9])], [1, 5]]
@@ -1443,7 +1867,7 @@ def rand_rich_label(rng, n=None):
     if n > 1 and rng.random() < 0.3:
         tables[-1] = tables[0]
     return {'t': 'label', 'name': rand_ids(rng, n, XML_SAFE_NAMES), 'tables': tables,
-            'meta': rand_ids(rng, n, list(range(NID)))}
+            'meta': rand_metas(rng, n, True)}
 
 
 def rand_series_value(rng):
@@ -1578,14 +2002,17 @@ def cases(rng, tier):
                     d = {'kind': 'ser', 'start': 3, 'step': 2 if (n + (a or 0)) % 2 else -5, 'size': n, 'unit': n % 4,
                          'op': 'idx', 'idx': {'t': 's', 'v': [a, b, c]}}
                     out.append(mk_case(d, 'series-slices'))
+                    out.append(mk_case(dict(d, gen=True), 'series-gen'))
         for i in range(-n - 2, n + 2):
             d = {'kind': 'ser', 'start': -4, 'step': 3, 'size': n, 'unit': 0, 'op': 'idx', 'idx': {'t': 'i', 'v': i}}
             out.append(mk_case(d, 'series-int'))
+            out.append(mk_case(dict(d, gen=True), 'series-gen'))
     # ---- series random
     for _ in range(600 * N):
         d = rand_series(rng)
         d.update(op='idx', idx=rand_index(rng, d['size']))
         out.append(mk_case(d, 'series'))
+        out.append(mk_case(dict(d, gen=True), 'series-gen'))
     for _ in range(150 * N):
         d = rand_series(rng)
         o = rand_series(rng)
@@ -1597,6 +2024,7 @@ def cases(rng, tier):
             o['start'] = d['start'] + d['step'] * d['size']
         d.update(op='add', other=o)
         out.append(mk_case(d, 'series-add'))
+        out.append(mk_case(dict(d, gen=True), 'series-gen'))
     for _ in range(300 * N):
         d = rand_series(rng, floats=True)
         d.update(op='idx', idx=rand_index(rng, d['size']))
@@ -1655,6 +2083,18 @@ def cases(rng, tier):
         d = rand_listaxis(rng, 'sc', rng.randrange(1, 7), XML_SAFE_NAMES)
         d.update(op='xrt')
         out.append(mk_case(d, 'sc-xrt'))
+    # ---- explicit per-map metadata dicts / file-level metadata through the XML text, model-compared (wave 3):
+    #      empty values, the empty key, XML-special / long / non-ASCII texts; 15% with outer whitespace (open finding)
+    for _ in range(250 * N):
+        pads = rng.random() < 0.15
+        n = rng.randrange(1, 6)
+        d = {'kind': 'scm', 'name': rand_ids(rng, n, XML_SAFE_NAMES), 'metas': [rand_mdict(rng, pads) for _ in range(n)],
+             'op': 'xrt'}
+        if n > 1 and rng.random() < 0.2:
+            d['metas'][-1] = d['metas'][0]
+        out.append(mk_case(d, 'scm-xrt'))
+    for _ in range(100 * N):
+        out.append(mk_case({'op': 'fmx', 'meta': rand_mdict(rng, rng.random() < 0.15), 'stream': 'fm-xrt'}, 'fm-xrt'))
     for _ in range(250 * N):
         sp = rand_rich_label(rng, rng.randrange(1, 5))
         d = {'kind': 'lar', 'name': sp['name'], 'meta': sp['meta'], 'tables': sp['tables'], 'op': 'xrt'}
@@ -1679,7 +2119,8 @@ def cases(rng, tier):
                 pool.append(['S', rng.randint(-3, 3), rng.choice([1, 2]), rng.randrange(1, 4), rng.randrange(2)])
             else:
                 n = rng.randrange(1, 3)
-                pool.append(['C', rand_ids(rng, n, XML_SAFE_NAMES[:3]), rand_ids(rng, n, [0, 1])])
+                pool.append(['C', rand_ids(rng, n, XML_SAFE_NAMES[:3]),
+                             rand_ids(rng, n, [0, 1] if rng.random() < 0.5 else META_EMPTYISH[:6])])
         out.append(mk_case({'op': 'hdr', 'axes': [rng.choice(pool) for _ in range(rng.randrange(1, 6))],
                             'stream': 'hdr'}, 'hdr'))
     # ---- XML / file round trips (oracle only)
@@ -1693,7 +2134,7 @@ def cases(rng, tier):
         if rng.random() < 0.3:          # one axis is the result of earlier indexing / concatenation
             j = rng.randrange(k)
             axes[j] = rand_hist(rng, axes[j] if rng.random() < 0.3 else None)
-        out.append(mk_case({'op': 'xml', 'axes': axes, 'stream': 'xml'}, 'xml'))
+        out.append(mk_case({'op': 'xml', 'axes': axes, 'fmeta': rand_fmeta(rng), 'stream': 'xml'}, 'xml'))
     for _ in range({'quick': 500, 'thorough': 6000, 'search': 800}[tier]):
         k = rng.choice([2, 2, 2, 3])
         axes = [rand_rich_axis(rng) for _ in range(k)]
@@ -1702,7 +2143,8 @@ def cases(rng, tier):
         if rng.random() < 0.3:
             j = rng.randrange(k)
             axes[j] = rand_hist(rng, axes[j] if rng.random() < 0.3 else None)
-        out.append(mk_case({'op': 'file', 'axes': axes, 'dseed': rng.randrange(10 ** 6), 'stream': 'file'}, 'file'))
+        out.append(mk_case({'op': 'file', 'axes': axes, 'fmeta': rand_fmeta(rng), 'dseed': rng.randrange(10 ** 6),
+                            'stream': 'file'}, 'file'))
     # ---- near-duplicate axes in one header (to_header shares a map when `ax in axes[:dim]`), both orders
     for _ in range({'quick': 1200, 'thorough': 12000, 'search': 2000}[tier]):
         a, b = rand_near_pair(rng)
@@ -1713,10 +2155,10 @@ def cases(rng, tier):
         elif r < 0.3:
             axes.insert(rng.randrange(3), rng.choice([a, b]))
         if rng.random() < 0.7:
-            out.append(mk_case({'op': 'xml', 'axes': axes, 'stream': 'xml-near'}, 'xml-near'))
+            out.append(mk_case({'op': 'xml', 'axes': axes, 'fmeta': rand_fmeta(rng), 'stream': 'xml-near'}, 'xml-near'))
         else:
-            out.append(mk_case({'op': 'file', 'axes': axes, 'dseed': rng.randrange(10 ** 6), 'stream': 'file-near'},
-                               'file-near'))
+            out.append(mk_case({'op': 'file', 'axes': axes, 'fmeta': rand_fmeta(rng), 'dseed': rng.randrange(10 ** 6),
+                                'stream': 'file-near'}, 'file-near'))
     # ---- __eq__ against description equality (symmetry), oracle only
     for _ in range({'quick': 1500, 'thorough': 15000, 'search': 2000}[tier]):
         a, b = rand_near_pair(rng)
@@ -1731,6 +2173,7 @@ def cases(rng, tier):
             a, b = rand_near_pair(rng)
             axes_a[0], axes[0] = a, b
         out.append(mk_case({'op': 'file2', 'axes_a': axes_a, 'axes': axes, 'mode': rng.choice(['loaded', 'saved']),
+                            'fmeta': rand_fmeta(rng), 'fmeta_a': rand_fmeta(rng),
                             'saves': rng.choice([1, 1, 2]), 'resave': rng.random() < 0.3,
                             'dseed': rng.randrange(10 ** 6), 'stream': 'file2'}, 'file2'))
     return out
